@@ -238,6 +238,11 @@ objs=[conditional(gt(f,0.53125), u*v, u.dx(0)*v)*dx, conditional(lt(f,g), v, 0.0
     _c("conditional_upwind_dg", '''
 m=mesh("triangle"); V=space(m,"DP",1); u,v=TrialFunction(V),TestFunction(V); f=Coefficient(V); n=FacetNormal(m); b=as_vector([1.0,0.53125])
 objs=[conditional(gt(dot(b,n('+')),0.03125), u('+'), u('-'))*jump(v)*dS, conditional(gt(f('+'),f('-')), v('+'), v('-'))*f('+')*dS]'''),
+    _c("geometry_both_sides_3d", '''
+m=mesh("tetrahedron"); V=space(m,"DP",1); v=TestFunction(V); f=Coefficient(V)
+mh=mesh("hexahedron"); Vh=space(mh,"DQ",1); vh=TestFunction(Vh)
+objs=[MinFacetEdgeLength(m)('-')*dS + MaxFacetEdgeLength(m)('+')*MaxFacetEdgeLength(m)('-')*f('+')*dS, (CellDiameter(m)('-') + Circumradius(m)('+') + MinCellEdgeLength(m)('-'))*v('+')*dS,
+      (MaxFacetEdgeLength(mh)('-') + MinFacetEdgeLength(mh)('+'))*vh('-')*dS]'''),
     _c("exo_iso_macro_element", '''
 m=mesh("triangle"); E=basix.ufl.element("iso","triangle",1); V=FunctionSpace(m,E); u,v=TrialFunction(V),TestFunction(V); f=Coefficient(space(m,"P",2))
 objs=[f*inner(grad(u),grad(v))*dx + inner(u,v)*dx, f*v*ds]'''),
